@@ -262,7 +262,7 @@ class Executor:
         self.opaque_types = [re.compile(p) for p in (
             r'^Gc<', r'^Guard<', r'^Rc<', r'^Weak<', r'^RefCell<', r'^Box<dyn', r'^Heap<', r'^Cell<',
             r'^FxHashMap<', r'^HashMap<', r'^FxHashSet<', r'^HashSet<', r'^IndexMap<', r'^BTreeMap<', r'^StringDict',
-            r'^JsString$', r'^JsSymbol$', r'^Box<', r'^dyn ', r'^fn\(', r'^for<')]
+            r'^JsString$', r'^JsSymbol$', r'^dyn ', r'^fn\(', r'^for<')]
         self.stats = dict(queries=0, solver_s=0.0, paths=0, fast=0)
         self.functions_encoded = set()
         self.models_used = set()
@@ -409,6 +409,9 @@ class Executor:
         idx = self.variant_index(ty, vname)
         return EnumV(strip_path(ty), idx, {idx: {i: f for i, f in enumerate(fields)}})
 
+    def mk_box(self, ref, ty='Box'):
+        return Agg('struct', ty, {0: Agg('struct', 'Unique', {0: ref})})
+
     def some(self, v, ty='Option'):
         return EnumV(ty, 1, {1: {0: v}})
 
@@ -430,10 +433,11 @@ class Executor:
     def is_opaque_type(self, ty):
         return any(p.match(ty) for p in self.opaque_types)
 
-    def fresh_str(self, st, cap=None, name='s', alphabet=None):
+    def fresh_str(self, st, cap=None, name='s', alphabet=None, stable=False):
         cap = self.str_cap if cap is None else cap
-        n = z3.BitVec(fresh_name(name + '_len'), LW)
-        bs = [z3.BitVec(fresh_name(name + '_b%d' % i), 8) for i in range(cap)]
+        fn_ = (lambda n: n) if stable else fresh_name
+        n = z3.BitVec(fn_(name + '_len'), LW)
+        bs = [z3.BitVec(fn_(name + '_b%d' % i), 8) for i in range(cap)]
         st.assume(z3.ULE(n, cap))
         alpha = alphabet if alphabet is not None else st.extra.get('alphabet')
         for i, b in enumerate(bs):
@@ -446,69 +450,79 @@ class Executor:
     def fresh(self, st, ty, name='v'):
         """a fresh symbolic value of the printed type ty (one level; nested parts stay Lazy)"""
         t = strip_path(ty)
+        stable = name.startswith('$')
+        fn_ = (lambda n: n) if stable else fresh_name
         for rx, fn in self.fresh_hooks:
             if rx.match(t):
-                return fn(self, st, t)
+                return fn(self, st, t, fn_(name))
         if t in INT_TYPES:
             w, s = INT_TYPES[t]
-            return Int(z3.BitVec(fresh_name(name), w), s)
+            return Int(z3.BitVec(fn_(name), w), s)
         if t == 'bool':
-            return Bool(z3.Bool(fresh_name(name)))
+            return Bool(z3.Bool(fn_(name)))
         if t == 'f64':
-            return Float(z3.FP(fresh_name(name), F64))
+            return Float(z3.FP(fn_(name), F64))
         if t == 'char':
-            e = z3.BitVec(fresh_name(name), 32)
+            e = z3.BitVec(fn_(name), 32)
             st.assume(z3.Or(z3.ULT(e, 0xD800), z3.And(z3.UGE(e, 0xE000), z3.ULE(e, 0x10FFFF))))
             return Char(e)
         if t == '()':
             return UNIT
         if t == '&str' or t == 'String' or t == '&mut str':
-            return self.fresh_str(st, name=name)
+            return self.fresh_str(st, name=name, stable=stable)
         if self.is_opaque_type(t):
-            return Opaque(t)
+            return Opaque(t, z3.Int(fn_(name + ':opq')))
         head, args = type_head(t)
+        if head == 'Box' and args:
+            a = st.alloc(Lazy(args[0]))
+            st.extra[('cellname', a)] = name + '.box' if stable else '$%d' % a
+            return self.mk_box(Ref(a), t)
         if head in ('&', '&mut', '*const', '*mut'):
             inner = args[0]
             if inner == 'str':
-                return self.fresh_str(st, name=name)
+                return self.fresh_str(st, name=name, stable=stable)
             a = st.alloc(Lazy(inner))
             null = False
             if head.startswith('*'):
-                null = z3.Bool(fresh_name('null'))
+                null = z3.Bool(fn_(name + ':null'))
             return Ref(a, (), null)
         if head == 'tuple':
-            return Agg('tuple', t, {i: Lazy(a) for i, a in enumerate(args)})
+            return Agg('tuple', t, {i: Lazy(a) for i, a in enumerate(args)}, nm=name if stable else None)
         if head == 'unit':
             return UNIT
         if head == 'array':
             n = int(re.sub(r'_usize$', '', args[1]))
             return Agg('array', t, {i: Lazy(args[0]) for i in range(n)})
         if head == 'Vec' or head == 'slice' or head == 'VecDeque':
-            n = z3.BitVec(fresh_name(name + '_len'), 64)
+            n = z3.BitVec(fn_(name + '_len'), 64)
             st.assume(z3.ULE(n, (1 << 40)))
-            return AbsVec(n, fresh_name('vec'), args[0] if args else None)
+            return AbsVec(n, fn_(name + ':vec'), args[0] if args else None)
         vs = self.enum_variants(t)
         if vs is not None:
-            d = z3.BitVec(fresh_name(name + '_discr'), 64)
+            d = z3.BitVec(fn_(name + '_discr'), 64)
             st.assume(z3.ULT(d, len(vs)))
-            return EnumV(t, d, {}, lazy=True)
+            return EnumV(t, d, {}, lazy=True, nm=name if stable else None)
         if head == 'closure':
             return Agg('closure', t, {}, lazy=True)
         # any other nominal type: lazily materialised struct
-        return Agg('struct', t, {}, lazy=True)
+        return Agg('struct', t, {}, lazy=True, nm=name if stable else None)
 
     # -------------------------------------------------------------------------------------------
     # memory
     # -------------------------------------------------------------------------------------------
-    def _force(self, st, v):
+    def _force(self, st, v, name=None):
         if isinstance(v, Lazy):
-            return self.fresh(st, v.ty)
+            return self.fresh(st, v.ty, name or 'v')
         return v
 
-    def _walk(self, st, v, path, i):
-        """-> (value at path, updated v)"""
+    def _walk(self, st, v, path, i, base='$?'):
+        """-> (value at path, updated v).  base: stable name of the value v itself"""
         v0 = v
-        v = self._force(st, v)
+        if isinstance(v, Lazy):
+            v = self._force(st, v, base)
+        nm = getattr(v, 'nm', None)
+        if nm is not None:
+            base = nm
         if i == len(path):
             return v, v
         p = path[i]
@@ -529,13 +543,13 @@ class Executor:
                     child = Lazy(f[2])
                 else:
                     raise Abort('unmodelled', 'payload field without type: %r' % (p,))
-            res, newchild = self._walk(st, child, path, i + 2)
+            res, newchild = self._walk(st, child, path, i + 2, '%s.%s.%s' % (base, p[1], f[1]))
             if newchild is not child or f[1] not in pl:
                 npl = dict(v.payload)
                 d = dict(pl)
                 d[f[1]] = newchild
                 npl[vidx] = d
-                v = EnumV(v.ty, v.discr, npl, v.lazy)
+                v = EnumV(v.ty, v.discr, npl, v.lazy, v.nm)
             return res, v
         if k == 'f':
             idx = p[1]
@@ -546,7 +560,7 @@ class Executor:
                     child = Lazy(p[2])
                 else:
                     raise Abort('unmodelled', 'read of missing field %r of %r' % (p, v))
-                res, newchild = self._walk(st, child, path, i + 1)
+                res, newchild = self._walk(st, child, path, i + 1, '%s.%s' % (base, idx))
                 if newchild is not child or idx not in v.fields:
                     v = v.with_field(idx, newchild)
                 return res, v
@@ -560,7 +574,7 @@ class Executor:
                 if idx >= len(v.items):
                     raise Abort('panic', 'index %d out of bounds (len %d)' % (idx, len(v.items)))
                 child = v.items[idx]
-                res, newchild = self._walk(st, child, path, i + 1)
+                res, newchild = self._walk(st, child, path, i + 1, '%s.%s' % (base, idx))
                 if newchild is not child:
                     items = list(v.items)
                     items[idx] = newchild
@@ -568,7 +582,7 @@ class Executor:
                 return res, v
             if isinstance(v, Agg):
                 child = v.fields[idx]
-                res, newchild = self._walk(st, child, path, i + 1)
+                res, newchild = self._walk(st, child, path, i + 1, '%s.%s' % (base, idx))
                 if newchild is not child:
                     v = v.with_field(idx, newchild)
                 return res, v
@@ -577,7 +591,7 @@ class Executor:
 
     def load(self, st, addr, path=()):
         root = st.store[addr]
-        res, newroot = self._walk(st, root, path, 0)
+        res, newroot = self._walk(st, root, path, 0, st.extra.get(('cellname', addr), '$%d' % addr))
         if newroot is not root:
             st.store[addr] = newroot
         return res
@@ -600,7 +614,7 @@ class Executor:
             d = dict(pl)
             d[f[1]] = nc
             npl[vidx] = d
-            return EnumV(v.ty, v.discr, npl, v.lazy)
+            return EnumV(v.ty, v.discr, npl, v.lazy, v.nm)
         if k == 'f':
             idx = p[1]
             if isinstance(v, Uninit):
@@ -1102,6 +1116,49 @@ class Executor:
         raise Abort('unmodelled', 'cast %r as %s (%s)' % (a, ty, kind))
 
     # -------------------------------------------------------------------------------------------
+    # havoc (assume-guarantee for callees that reach the heap)
+    # -------------------------------------------------------------------------------------------
+    def havoc(self, pattern, framed=None, ret=None, label=None, effect=None):
+        """calls matching pattern return a fresh value of their return type, are recorded as an event, and may
+        rewrite every field of lazily materialised `&mut` struct arguments except the framed ones.
+        framed: {struct type name: set of field indices that the callee is assumed not to touch}
+        ret: optional fn(ex, st, call) -> value; effect: optional fn(ex, st, call) run before returning"""
+        framed = framed or {}
+
+        def h(ex, st, call):
+            name = label or call.norm
+            ex.havoc_used.add(name)
+            st.event('call', name, tuple(call.args))
+            for a in call.args:
+                if isinstance(a, Ref):
+                    tgt = st.store.get(a.addr)
+                    if a.path == () and isinstance(tgt, Agg) and tgt.lazy and tgt.kind == 'struct':
+                        keep = framed.get(tgt.ty.split('<')[0], None)
+                        if keep is None:
+                            continue     # not declared: callee gets the reference read-only
+                        st.store[a.addr] = Agg(tgt.kind, tgt.ty, {i: v for i, v in tgt.fields.items() if i in keep}, lazy=True)
+            if effect is not None:
+                effect(ex, st, call)
+            if ret is not None:
+                v = ret(ex, st, call)
+            else:
+                ty = call.dest_ty
+                if ty is None:
+                    fname = None
+                    try:
+                        fname = ex.resolve_crate_fn(call)
+                    except Abort:
+                        pass
+                    if fname is not None:
+                        ty = ex.mir.get(fname).ret_type
+                if ty is None:
+                    raise Abort('unmodelled', 'havoc of %s: unknown return type' % call.callee)
+                k = sum(1 for e_ in st.events if e_[0] == 'call' and e_[1] == name)
+                v = ex.fresh(st, ty, '$hv:%s.%d' % (name, k))
+            return ex.ret(st, call, v)
+        self.overrides.append((re.compile(pattern), h))
+
+    # -------------------------------------------------------------------------------------------
     # crate function resolution
     # -------------------------------------------------------------------------------------------
     def _build_fnkeys(self):
@@ -1346,7 +1403,7 @@ class Executor:
                 self.write_place(st, frame, place, v)
             elif k == 'setdiscr':
                 v = self.read_place(st, frame, s[1])
-                self.write_place(st, frame, s[1], EnumV(v.ty, s[2], v.payload, v.lazy))
+                self.write_place(st, frame, s[1], EnumV(v.ty, s[2], v.payload, v.lazy, v.nm))
             elif k == 'assume':
                 v = self.eval_operand(st, frame, s[1])
                 st.assume(v.e)
